@@ -108,6 +108,9 @@ func (p point) ts() int64 { return baseTime + int64(p.Slot)*storageIntervalMs + 
 
 type dataset struct {
 	TwoFamilies bool        `json:"twoFamilies"`
+	// Wide: the first metric has 40-70 series over 30 hosts, so that `group by host` has more groups than
+	// the default limit (20) of a query and (with a second tag key) the series of a host live in several shards
+	Wide bool `json:"wide,omitempty"`
 	Metrics     []metricDef `json:"metrics"`
 	Series      []seriesDef `json:"series"`
 	Batches     [][]point   `json:"batches"` // ingestion requests in order
@@ -115,14 +118,30 @@ type dataset struct {
 
 var fieldPool = []fieldDef{{"s1", tSum}, {"s2", tSum}, {"mn", tMin}, {"mx", tMax}, {"la", tLast}, {"fi", tFirst}}
 
+// wideHosts: host values of a wide data set (> the default limit 20 of a query).
+const wideHosts = 30
+
 func genDataset(t *rapid.T) *dataset {
 	d := &dataset{}
+	// 1 of 8 data sets is wide (see dataset.Wide)
+	d.Wide = rapid.IntRange(0, 7).Draw(t, "wideDataset") == 0
 	nMetrics := rapid.SampledFrom([]int{1, 1, 1, 2, 2, 3}).Draw(t, "nMetrics")
+	if d.Wide && nMetrics > 2 {
+		nMetrics = 2
+	}
 	for m := 0; m < nMetrics; m++ {
 		md := metricDef{Name: []string{"cpu", "mem", "disk"}[m]}
 		md.TagKeys = [][]string{{"host"}, {"host", "zone"}, {"host", "zone"}, {"dc", "host"}, {"dc", "host", "zone"}}[rapid.IntRange(0, 4).Draw(t, "tagKeys")]
+		if d.Wide && m == 0 && len(md.TagKeys) == 1 {
+			// a second key: the series of one host are spread over the shards
+			md.TagKeys = []string{"host", "zone"}
+		}
 		// half of the metrics have series with different tag key sets (legal: a series is its tag set)
 		md.Ragged = len(md.TagKeys) > 1 && rapid.Bool().Draw(t, "raggedTags")
+		if d.Wide && m == 0 && md.Ragged {
+			// mostly complete tag sets, so that most hosts form a group
+			md.Ragged = rapid.IntRange(0, 3).Draw(t, "wideRagged") == 0
+		}
 		nf := rapid.IntRange(1, 4).Draw(t, "nFields")
 		perm := rapid.Permutation(fieldPool).Draw(t, "fieldPick")
 		md.Fields = append(md.Fields, perm[:nf]...)
@@ -130,15 +149,31 @@ func genDataset(t *rapid.T) *dataset {
 		d.Metrics = append(d.Metrics, md)
 	}
 	nSeries := rapid.IntRange(nMetrics+1, 12).Draw(t, "nSeries")
+	nWide := 0
+	if d.Wide {
+		// a fixed ladder (an integer range is drawn mostly near its lower end); the other metric gets <= 4 series
+		nWide = rapid.SampledFrom([]int{40, 50, 60, 70}).Draw(t, "nWideSeries")
+		nSeries = nWide + (nMetrics-1)*rapid.IntRange(1, 4).Draw(t, "nOtherSeries")
+	}
 	seen := map[string]bool{}
 	for s := 0; s < nSeries; s++ {
 		m := s % nMetrics
-		if s >= nMetrics {
+		if d.Wide {
+			m = 0
+			if s >= nWide {
+				m = 1
+			}
+		} else if s >= nMetrics {
 			m = rapid.IntRange(0, nMetrics-1).Draw(t, "seriesMetric")
 		}
+		wide := d.Wide && m == 0
 		md := d.Metrics[m]
 		carried := md.TagKeys
-		if md.Ragged && rapid.IntRange(0, 9).Draw(t, "allTagKeys") < 5 {
+		raggedBelow := 5
+		if wide {
+			raggedBelow = 2
+		}
+		if md.Ragged && rapid.IntRange(0, 9).Draw(t, "allTagKeys") < raggedBelow {
 			// a series that carries only some of the metric's tag keys (at least one)
 			carried = nil
 			for _, k := range md.TagKeys {
@@ -154,7 +189,16 @@ func genDataset(t *rapid.T) *dataset {
 		for _, k := range carried {
 			switch k {
 			case "host":
-				tags[k] = fmt.Sprintf("h%d", rapid.IntRange(0, 7).Draw(t, "host"))
+				if wide {
+					// the first wideHosts series take one host each (> 20 groups for sure), the others any
+					h := s
+					if s >= wideHosts {
+						h = rapid.IntRange(0, wideHosts-1).Draw(t, "wideHost")
+					}
+					tags[k] = fmt.Sprintf("h%02d", h)
+				} else {
+					tags[k] = fmt.Sprintf("h%d", rapid.IntRange(0, 7).Draw(t, "host"))
+				}
 			case "zone":
 				tags[k] = rapid.SampledFrom([]string{"za", "zb", "zc"}).Draw(t, "zone")
 			default:
@@ -197,7 +241,11 @@ func genDataset(t *rapid.T) *dataset {
 	nBatches := rapid.IntRange(5, 7).Draw(t, "nBatches")
 	d.Batches = make([][]point, nBatches)
 	for si, sd := range d.Series {
-		n := rapid.IntRange(1, 5).Draw(t, "nPoints")
+		maxPoints := 5
+		if d.Wide && sd.Metric == 0 {
+			maxPoints = 2
+		}
+		n := rapid.IntRange(1, maxPoints).Draw(t, "nPoints")
 		used := map[int]bool{}
 		var slots []int
 		for i := 0; i < n; i++ {
@@ -376,6 +424,30 @@ type querySpec struct {
 	EndS     int       `json:"endSec"`
 	Interval int       `json:"intervalSec"` // 0 = no group by time
 	GroupBy  []string  `json:"groupBy"`
+	// Limit: explicit `limit N` (0: no limit clause, the parser's default limit applies)
+	Limit     int    `json:"limit,omitempty"`
+	LimitKind string `json:"limitKind,omitempty"`
+}
+
+// defaultLimit is the limit of a query without a limit clause (sql/query_stmt_parser.go).
+const defaultLimit = 20
+
+// completeLimit is the limit of the complete answer a cut answer is compared with.
+const completeLimit = 1000000
+
+// effLimit: the number of series (groups) the answer may have.
+func (q *querySpec) effLimit() int {
+	if q.Limit > 0 {
+		return q.Limit
+	}
+	return defaultLimit
+}
+
+// sqlWithLimit: the statement with the limit clause replaced.
+func (q *querySpec) sqlWithLimit(d *dataset, limit int) string {
+	c := *q
+	c.Limit = limit
+	return c.sql(d)
 }
 
 func fmtTime(ms int64) string { return time.UnixMilli(ms).UTC().Format("2006-01-02 15:04:05") }
@@ -409,6 +481,9 @@ func (q *querySpec) sql(d *dataset) string {
 	}
 	if len(gb) > 0 {
 		b.WriteString(" group by " + strings.Join(gb, ","))
+	}
+	if q.Limit > 0 {
+		fmt.Fprintf(&b, " limit %d", q.Limit)
 	}
 	return b.String()
 }
@@ -589,7 +664,42 @@ func genQuery(t *rapid.T, d *dataset, group string) *querySpec {
 			q.GroupBy = append(q.GroupBy[:drop:drop], q.GroupBy[drop+1:]...)
 		}
 	}
+	if d.Wide && q.Metric == 0 && rapid.IntRange(0, 9).Draw(t, "wideByHost") < 5 {
+		// the grouping with more groups than the default limit whose groups have several series
+		q.GroupBy = []string{"host"}
+	}
+	genLimit(t, d, q)
 	return q
+}
+
+// genLimit draws the limit clause. No order by: which groups a cut answer holds is not specified, the
+// limit is drawn relative to the number of groups of the complete answer (known from the written points).
+func genLimit(t *rapid.T, d *dataset, q *querySpec) {
+	q.LimitKind = "none"
+	if len(q.GroupBy) == 0 {
+		// one series at most: a limit clause never cuts
+		if rapid.IntRange(0, 4).Draw(t, "limitUngrouped") == 0 {
+			q.Limit = rapid.SampledFrom([]int{1, 2, 100}).Draw(t, "limit")
+			q.LimitKind = "ungrouped"
+		}
+		return
+	}
+	groups := len(evalModel(d, q).groupKeys())
+	switch k := rapid.IntRange(0, 9).Draw(t, "limitKind"); {
+	case k < 4: // no clause: the default limit (cuts when a wide metric is grouped by host)
+	case k < 7:
+		q.Limit = rapid.IntRange(1, 4).Draw(t, "limit")
+		q.LimitKind = "small(1..4)"
+	case k < 9: // around the number of groups
+		q.Limit = groups + rapid.IntRange(-1, 1).Draw(t, "limitOff")
+		q.LimitKind = "groups-1..groups+1"
+		if q.Limit < 1 {
+			q.Limit = 1
+		}
+	default:
+		q.Limit = rapid.SampledFrom([]int{defaultLimit, 100, completeLimit}).Draw(t, "limit")
+		q.LimitKind = "large"
+	}
 }
 
 // ---- naive model -------------------------------------------------------------------------------
@@ -609,6 +719,17 @@ type modelOut struct {
 	// results of series / families are merged is not fixed by any document): candidate values
 	ambiguous map[cell][]float64
 	matching  []int // series with at least one point in the answer
+	// groupOf: series with at least one point in the answer -> key of its group
+	groupOf map[int]string
+}
+
+// groupKeys: the groups (series of the result) of the complete answer, sorted.
+func (m *modelOut) groupKeys() []string {
+	seen := map[string]bool{}
+	for c := range m.present {
+		seen[c.key] = true
+	}
+	return sortedKeys(seen)
 }
 
 type feed struct {
@@ -623,7 +744,7 @@ func evalModel(d *dataset, q *querySpec) *modelOut { return evalModelOn(d, q, ni
 
 // evalModelOn is evalModel over the series the filter accepts (nil: all).
 func evalModelOn(d *dataset, q *querySpec, only func(series int) bool) *modelOut {
-	out := &modelOut{exact: map[cell]float64{}, present: map[cell]bool{}, ambiguous: map[cell][]float64{}}
+	out := &modelOut{exact: map[cell]float64{}, present: map[cell]bool{}, ambiguous: map[cell][]float64{}, groupOf: map[int]string{}}
 	if q.Metric < 0 {
 		return out
 	}
@@ -691,6 +812,7 @@ func evalModelOn(d *dataset, q *querySpec, only func(series int) bool) *modelOut
 					continue
 				}
 				matched[p.Series] = true
+				out.groupOf[p.Series] = key
 				c := cell{key, it.text(), ts}
 				out.present[c] = true
 				aggs[c] = md.Fields[fi].Type.aggOf(it.Func)
